@@ -7,6 +7,7 @@ import Walrus.Driver.OffsetsD
 import Walrus.Driver.DwarfD
 import Walrus.Driver.ModuleD
 import Walrus.Driver.MapsD
+import Walrus.Driver.GcD
 
 open Walrus.Driver
 
@@ -21,6 +22,8 @@ def dispatch (line : String) : String :=
   | "dwarf" :: rest => handleDwarf rest
   | "module" :: rest => handleModule rest
   | "maps" :: rest => handleMaps rest
+  | "gc" :: rest => handleGc rest
+  | "used" :: rest => handleUsed rest
   | _ => "bad-request"
 
 partial def loop (h : IO.FS.Stream) (out : IO.FS.Stream) : IO Unit := do
